@@ -63,11 +63,13 @@ def remove_unused_self_cls(source: str) -> str:
                     continue
                 decorator = "staticmethod"
                 delete_decorators.add("classmethod")
-            funcdef_copy = copy.copy(funcdef)
+            # funcdef belongs to the tree cached by core.parse: build the replacement from a deep
+            # copy, so that the arguments and the body of the cached node are left untouched.
+            funcdef_copy = copy.deepcopy(funcdef)
             funcdef_copy.lineno = min(x.lineno for x in ast.walk(funcdef) if hasattr(x, "lineno"))
             funcdef_copy.decorator_list = [
                 dec
-                for dec in funcdef.decorator_list
+                for dec in funcdef_copy.decorator_list
                 if not (isinstance(dec, ast.Name) and dec.id in delete_decorators)
             ]
             funcdef_copy.decorator_list.insert(
@@ -78,7 +80,7 @@ def remove_unused_self_cls(source: str) -> str:
                     lineno=funcdef.lineno - 1,
                     col_offset=funcdef.col_offset,
             ),)
-            args = funcdef.args.posonlyargs or funcdef.args.args
+            args = funcdef_copy.args.posonlyargs or funcdef_copy.args.args
             if args:
                 del args[0]
             if decorator == "classmethod":
